@@ -24,8 +24,11 @@ SwapColsL(A, j, k) == [r \in 1..Len(A) |-> [c \in 1..Len(A[r]) |-> IF c = j THEN
 QuoT(a, b) == IF (a >= 0) = (b > 0) THEN LAbs(a) \div LAbs(b) ELSE -(LAbs(a) \div LAbs(b))
 
 \* bring the non-zero entry of least absolute value to (1,1)
-MinPos(A) == LET NZ == {<<i, j>> \in (1..NRows(A)) \X (1..NCols(A)) : A[i][j] # 0} IN
-             CHOOSE p \in NZ : \A q \in NZ : LAbs(A[p[1]][p[2]]) <= LAbs(A[q[1]][q[2]])
+MinPos(A) == LET NZ == {<<i, j>> \in (1..NRows(A)) \X (1..NCols(A)) : A[i][j] # 0}
+                 best == CHOOSE p \in NZ : \A q \in NZ : LAbs(A[p[1]][p[2]]) <= LAbs(A[q[1]][q[2]])
+             IN \* on ties the current corner entry stays the pivot: the least absolute value then strictly decreases
+                \* from one round to the next, which makes the elimination terminate
+                IF A[1][1] # 0 /\ LAbs(A[1][1]) = LAbs(A[best[1]][best[2]]) THEN <<1, 1>> ELSE best
 \* one round: subtract multiples of row 1 / column 1 from the others
 ReduceRound(A) ==
     LET a == A[1][1]
@@ -36,21 +39,22 @@ ReduceRound(A) ==
 RowColClear(A) == (\A i \in 2..NRows(A) : A[i][1] = 0) /\ (\A j \in 2..NCols(A) : A[1][j] = 0)
 \* an entry of the remaining block not divisible by the pivot (if any): add its row to row 1
 BadEntry(A) == {<<i, j>> \in (2..NRows(A)) \X (2..NCols(A)) : A[i][j] % LAbs(A[1][1]) # 0}
+\* TLC evaluates LET definitions and operator arguments lazily and may re-evaluate them on every use; bound
+\* variables of a set constructor are concrete values.  Binding the intermediate matrices this way keeps the
+\* recursion linear instead of exponential.
 RECURSIVE Pivot1(_)
+Pivot1Tail(C) ==
+    IF ~RowColClear(C) THEN Pivot1(C)
+    ELSE IF BadEntry(C) = {} THEN C
+    ELSE LET b == CHOOSE b \in BadEntry(C) : TRUE IN
+         Pivot1([i \in 1..NRows(C) |-> IF i = 1 THEN [j \in 1..NCols(C) |-> C[1][j] + C[b[1]][j]] ELSE C[i]])
 Pivot1(A) ==   \* A non-zero: returns a matrix with A[1][1] dividing everything, row 1 and column 1 otherwise zero
-    LET p == MinPos(A)
-        B == SwapColsL(SwapRowsL(A, 1, p[1]), 1, p[2])
-        C == ReduceRound(B)
-    IN IF ~RowColClear(C) THEN Pivot1(C)
-       ELSE IF BadEntry(C) = {} THEN C
-       ELSE LET b == CHOOSE b \in BadEntry(C) : TRUE IN
-            Pivot1([i \in 1..NRows(C) |-> IF i = 1 THEN [j \in 1..NCols(C) |-> C[1][j] + C[b[1]][j]] ELSE C[i]])
+    CHOOSE R \in {Pivot1Tail(C) : C \in {ReduceRound(B) : B \in {SwapColsL(SwapRowsL(A, 1, p[1]), 1, p[2]) : p \in {MinPos(A)}}}} : TRUE
 RECURSIVE InvFactors(_)
+InvFactorsPivoted(C) == <<LAbs(C[1][1])>> \o InvFactors([i \in 1..NRows(C)-1 |-> [j \in 1..NCols(C)-1 |-> C[i+1][j+1]]])
 InvFactors(A) ==   \* the non-zero invariant factors d1 | d2 | ..., all positive
     IF NRows(A) = 0 \/ NCols(A) = 0 \/ LIsZero(A) THEN <<>>
-    ELSE LET C == Pivot1(A)
-             Rest == [i \in 1..NRows(C)-1 |-> [j \in 1..NCols(C)-1 |-> C[i+1][j+1]]]
-         IN <<LAbs(C[1][1])>> \o InvFactors(Rest)
+    ELSE CHOOSE r \in {InvFactorsPivoted(C) : C \in {Pivot1(A)}} : TRUE
 RankZ(A) == Len(InvFactors(A))
 Torsion(A) == SelectSeq(InvFactors(A), LAMBDA d : d > 1)
 
@@ -58,16 +62,15 @@ Torsion(A) == SelectSeq(InvFactors(A), LAMBDA d : d > 1)
 PInv(a, p) == CHOOSE x \in 1..p-1 : (a * x) % p = 1
 ModM(A, p) == [i \in 1..NRows(A) |-> [j \in 1..NCols(A) |-> ((A[i][j] % p) + p) % p]]
 RECURSIVE RankP(_,_)
+RankPStep(B, p) ==      \* B reduced mod p with B[1][1] # 0
+    LET inv == PInv(B[1][1], p) IN
+    1 + RankP([i \in 1..NRows(B)-1 |-> [j \in 1..NCols(B)-1 |->
+                  (((B[i+1][j+1] - ((B[i+1][1] * inv) % p) * B[1][j+1]) % p) + p) % p]], p)
 RankP(A, p) ==
-    LET M == ModM(A, p) IN
-    IF NRows(M) = 0 \/ NCols(M) = 0 \/ LIsZero(M) THEN 0
-    ELSE LET NZ == {<<i, j>> \in (1..NRows(M)) \X (1..NCols(M)) : M[i][j] # 0}
-             q == CHOOSE q \in NZ : TRUE
-             B == SwapColsL(SwapRowsL(M, 1, q[1]), 1, q[2])
-             inv == PInv(B[1][1], p)
-             Rest == [i \in 1..NRows(B)-1 |-> [j \in 1..NCols(B)-1 |->
-                         (B[i+1][j+1] - ((B[i+1][1] * inv) % p) * B[1][j+1]) % p]]
-         IN 1 + RankP(Rest, p)
+    CHOOSE r \in {IF NRows(M) = 0 \/ NCols(M) = 0 \/ LIsZero(M) THEN 0
+                  ELSE CHOOSE x \in {RankPStep(B, p) : B \in {SwapColsL(SwapRowsL(M, 1, q[1]), 1, q[2]) :
+                                          q \in {CHOOSE q \in {<<i, j>> \in (1..NRows(M)) \X (1..NCols(M)) : M[i][j] # 0} : TRUE}}} : TRUE
+                  : M \in {ModM(A, p)}} : TRUE
 
 \* ------------------------------------------------------------ homology of C1 --din--> C2 --dout--> C3
 \* din: n x a (columns = generators of C1), dout: b x n; n = rank of C2 given explicitly
